@@ -13,6 +13,7 @@ import (
 	"time"
 
 	"github.com/PowerDNS/lightningstream/config"
+	"github.com/PowerDNS/lightningstream/snapshot"
 	"github.com/PowerDNS/lightningstream/snapshot/storage"
 	"github.com/PowerDNS/lightningstream/syncer"
 	"github.com/PowerDNS/lightningstream/syncer/events"
@@ -91,6 +92,22 @@ func round(native bool, dur time.Duration) {
 			_ = i.S.Sync(ctx)
 		}(i)
 	}
+	// a foreign instance whose snapshots are undecodable, appear continuously and vanish again: the downloaders'
+	// error paths (MarkCorrupt, token release, retries) run concurrently with the receivers' polls
+	wg.Add(1)
+	go func() {
+		defer wg.Done()
+		var prev string
+		for n := 0; ctx.Err() == nil; n++ {
+			name := snapshot.Name(inst.DBName, "x", "GX", time.Now())
+			b.Put(name, []byte("\x1f\x8b not a snapshot"))
+			if prev != "" && n%3 == 0 {
+				b.Remove(prev)
+			}
+			prev = name
+			time.Sleep(time.Millisecond)
+		}
+	}()
 	// global storage handle: getters before and after the setter
 	storage.VerifResetGlobal()
 	for g := 0; g < 3; g++ {
